@@ -17,8 +17,11 @@ Reading.
 * time signatures under `time_sig_change`: the policy rewrites signatures by design; the oracle demands that
   at the start of every measure the signature in force in the file is the measure's own length (when that is a
   whole number of beats) if the measure is irregular, and the score's signature in force otherwise.  An
-  irregular measure whose length is not a whole number of beats is the documented TODO of the code: nothing is
-  demanded at its start.
+  irregular measure whose length is not a whole number of beats is written in a finer beat type (fix C04-9;
+  truncated when the length is not dyadic): at its start only a non-zero numerator is demanded.
+* raw MIDI files (not written by partitura) exercise the two readers: on well-formed ones (per channel and
+  pitch a chain of notes that at most touch, note offs partly written as zero-velocity note ons) the notes read
+  must be the notes written; on arbitrary ones only model and reader are compared.
 * a `pad_bar` origin that is not a multiple of a tick (bar length of the first signature not representable in
   any division of the score, e.g. 3/8 with one division per quarter) is outside the generated domain
   (`ticks_integral_pad_partial` states the hypothesis; counter-example in Props/C04.lean).
@@ -49,8 +52,12 @@ TRUSTED = [
 ]
 PARTIAL = [
     "ticks_integral_pad_partial: pad_bar needs beat_type | 4*beats*ppq (bar of the first signature on the tick grid)",
-    "time_sig_change with an irregular measure whose length is not a whole number of beats writes a truncated "
-    "numerator (documented TODO in the code): modelled, nothing demanded by the oracle at that measure",
+    "time_sig_change with an irregular measure whose length is not a whole number of beats: halved beats up to /128 "
+    "(fix C04-9), truncated when not dyadic: modelled; the oracle only demands a non-zero numerator there",
+    "parts with different metres merged into one track (modes 1, 2, 4) give a track with two signatures at one tick; "
+    "when the importer's part construction rejects such a file the import is neither compared nor judged",
+    "Props/C04.lean states the theorems for one track / one key list; that save_score_midi routes every note to the "
+    "track and channel of its key is part of the executable model (Model/ScoreMidi.lean) and compared, not proved",
     "the theorems are about the models; that save_score_midi / load_score_midi compute the modelled functions is "
     "established by the differential run only",
     "Tempo values (bpm -> microseconds per quarter) are C12's conversion; here positions and the written integer",
@@ -716,7 +723,7 @@ def evaluate(d):
             ev.impl.append(W.f_list(lambda i: W.f_list(
                 lambda n: W.f_tuple(*[W.f_int(n[f]) for f in ("note_on_tick", "note_off_tick", "midi_pitch", "channel", "velocity")]),
                 sorted((n for n in pnotes if n["track"] == i),
-                       key=lambda n: (n["note_on_tick"], n["midi_pitch"], n["note_off_tick"], n["channel"]))), range(len(tracks))))
+                       key=lambda n: (n["note_on_tick"], n["midi_pitch"], n["note_off_tick"], n["channel"], n["velocity"]))), range(len(tracks))))
         buf.seek(0)
         sc2, e3 = call(with_timeout, 30, load_score_midi, mido.MidiFile(file=buf), part_voice_assign_mode=d["mode"])
         n_notes = sum(1 for tr in tracks for _, _, m in tr if m.type == "note_on" and m.velocity > 0) if e2 else len(pnotes)
@@ -853,7 +860,7 @@ def eval_score(d):
             ev.impl.append(W.f_list(lambda i: W.f_list(
                 lambda n: W.f_tuple(*[W.f_int(n[f]) for f in ("note_on_tick", "note_off_tick", "midi_pitch", "channel", "velocity")]),
                 sorted((n for n in pnotes if n["track"] == i),
-                       key=lambda n: (n["note_on_tick"], n["midi_pitch"], n["note_off_tick"], n["channel"]))), range(len(tracks))))
+                       key=lambda n: (n["note_on_tick"], n["midi_pitch"], n["note_off_tick"], n["channel"], n["velocity"]))), range(len(tracks))))
         # ---- score reader, same mode
         buf.seek(0)
         zero_num = any(m.type == "time_signature" and m.numerator == 0 for tr in tracks for _, _, m in tr)
